@@ -183,6 +183,24 @@ def run(ck):
             variants.append((["pct", rng.randrange(10 ** 9), 4, 3000], "line"))
         for strat, gran in variants:
             tasks.append({"scen": "metrics", "params": p, "strat": strat, "gran": gran, "facts": dict(facts)})
+    # bursts: several submissions in the very same tick (and completions coinciding with submissions) on a throttled
+    # pool, no cancels - the interleavings around the gauge updates themselves (transiently negative gauges)
+    for i in range(40 if quick else 600):
+        n = rng.choice([3, 4])
+        t0 = rng.choice([0, 100])
+        d = rng.choice([100, 200])
+        burst = {"stacks": [{"base": "pool", "workers": 2, "layers": [{"t": "throttle", "count": 1}]}],
+                 # each submission coincides with the completion of the previous one: the queue is empty, capacity
+                 # has just been freed and the hand-over thread is awake while submit() updates the gauge
+                 "jobs": [{"st": 0, "S": t0 + j * d if i % 2 == 0 else t0 + (d if j == n - 1 else 0), "K": None, "C": False,
+                           "D": [d], "script": [["V", 0]], "polls": 1} for j in range(n)],
+                 "comb": [], "snaps": [t0 + 50, 1500], "shutdown": [], "horizon": 2500}
+        facts = {k: False for k in D7_FACTS}
+        facts["d7"] = False
+        facts.update(describe(burst))
+        for strat, gran in ((["random", rng.randrange(10 ** 9), 0.4], "sync"), (["pct", rng.randrange(10 ** 9), 4, 300], "sync"),
+                            (["random", rng.randrange(10 ** 9), 0.4], "line")):
+            tasks.append({"scen": "metrics", "params": burst, "strat": strat, "gran": gran, "facts": dict(facts)})
     pairs = ck.run_and_validate(tasks, TRACE)
     # bookkeeping for the evidence: which clause failed for which ingredients; did the facts hold up
     drift = 0
